@@ -1,6 +1,6 @@
 CONSTANTS
   Settings <- QuickSettings
-  Family = "ABC"
+  Family = "ABCD"
 INIT Init
 NEXT Next
 INVARIANTS
